@@ -116,5 +116,7 @@ def pairwise_restart_plans():
         for x in cmds:
             for y in cmds:
                 steps = [dep("s1", ["a.d"], ["/"])] + [dict(p) for p in pre] + [dict(x), dict(y), dict(op="restart"), dict(op="resume", svc="s1")]
-                out.append(plan(steps, note="pair %s,%s + restart" % (x["op"], y["op"])))
+                p = plan(steps, note="pair %s,%s + restart" % (x["op"], y["op"]))
+                p.update(req_hosts=["a.d", "b.a.d", "x.y"], req_paths=["/", "/api/x"], sni=["a.d"])   # a small matrix: these plans are many
+                out.append(p)
     return out
